@@ -68,7 +68,7 @@ OPS = [
     'scope failing', 'until graceful', 'first slow failing',
 ]
 # ops with more free dates than the others: explored in a family of their own (C03 `rare_ops`)
-RARE = ['first backlog failing', 'delayed cancelled']
+RARE = ['first backlog failing', 'delayed cancelled', 'late spawn cancelled']
 
 
 def make_op(W, name, tag):
@@ -426,6 +426,29 @@ def make_op(W, name, tag):
                 t.cancel()
                 t2.cancel()
                 await (time + b)
+    elif name == 'late spawn cancelled':
+        # the owner already waits in the exit of its scope; children finishing at symbolic dates
+        # (also in one time step, in either order), one of them spawns a further task into the
+        # scope and cancels it before it started
+        d1 = n('d1')
+        d2 = n('d2')
+
+        async def sub():
+            L('sub-start')
+            await (time + 1)
+
+        async def victim():
+            async with Scope() as s:
+                async def a():
+                    await (time + d1)
+
+                async def b():
+                    await (time + d2)
+                    t = s.do(sub())
+                    t.cancel()
+                    L('spawned-and-cancelled')
+                s.do(a())
+                s.do(b())
     elif name == 'raise':
         d = n('d')
 
